@@ -123,11 +123,17 @@ func cmdCSem(c *ctx) {
 			c.line("backend-errors.txt", q(cerr)+" "+q(m.wgsl()))
 			continue
 		}
-		unit, perr := cparse(text)
+		unit, nfix, perr := cparseN(text)
 		if perr != nil {
 			c.count("cparse-error")
 			c.line("cparse-errors.txt", q(perr.Error())+" "+q(text))
 			continue
+		}
+		if nfix > 0 {
+			c.count("prefix-array-declarator")
+			if c.stats["prefix-array-declarator"] == 1 {
+				c.line("prefix-array.txt", q(text))
+			}
 		}
 		line := cCase(dialect, m, unit, inp, outp)
 		c.line("cases.txt", line)
@@ -305,6 +311,19 @@ func cmdCProbeSem(c *ctx) {
 			}
 		}
 	}
+	for _, f := range []string{"f2i", "f2u"} {
+		for _, n := range []int{1, 3} {
+			m := probeModule("f32", n, "", false, false, f)
+			if f == "f2i" {
+				c.probeCases(dialect, m, fmt.Sprintf("%s f32 x%d", f, n), f2iBits, f)
+				c.probeCases(dialect, m, fmt.Sprintf("%ssat f32 x%d", f, n), f2iSatBits, f)
+			} else {
+				c.probeCases(dialect, m, fmt.Sprintf("%s f32 x%d", f, n), f2uBits, f)
+				c.probeCases(dialect, m, fmt.Sprintf("%ssat f32 x%d", f, n), f2uSatBits, f)
+			}
+			c.probeCases(dialect, m, fmt.Sprintf("%snan f32 x%d", f, n), f2iNaNBits, f)
+		}
+	}
 	for _, f := range []string{"neg", "bnot", "abs", "min", "max", "firstLeadingBit", "firstTrailingBit", "countOneBits", "reverseBits", "countLeadingZeros", "countTrailingZeros"} {
 		for _, k := range []string{"i32", "u32"} {
 			if f == "neg" && k == "u32" {
@@ -320,9 +339,19 @@ func cmdCProbeSem(c *ctx) {
 
 func init() { commands["cprobesem"] = cmdCProbeSem }
 
+// float bit patterns for the float -> integer conversion probes (no NaN: WGSL leaves that result open).
+// Values at or above 2^31 (i32) / 2^32 (u32) are probed separately (tag f2isat / f2usat): the helpers clamp to
+// the largest float below the bound, not to INT_MAX / UINT_MAX (recorded finding).
+var f2iBits = []uint32{0x00000000, 0x80000000, 0x3f000000, 0xbf000000, 0x3f800000, 0xbf800000, 0x4effffff, 0xcf000000, 0xcf000001,
+	0xff800000, 0xff7fffff, 0x00000001, 0x80000001, 0x42f6e979, 0xc2f6e979, 0xdf000000, 0x4e000000, 0xce000000}
+var f2uBits = append([]uint32{0x4f000000, 0x4f000001, 0x4f7fffff}, f2iBits...)
+var f2iSatBits = []uint32{0x4f000000, 0x4f000001, 0x4f7fffff, 0x4f800000, 0x4f800001, 0x7f800000, 0x7f7fffff, 0x5f000000}
+var f2uSatBits = []uint32{0x4f800000, 0x4f800001, 0x7f800000, 0x7f7fffff, 0x5f000000}
+var f2iNaNBits = []uint32{0x7fc00000, 0xffc00000, 0x7f800001, 0xff800001, 0x7fffffff}
+
 // probeModule builds the generator-AST form of `outp[0..] = bits(a OP b)` with a, b loaded from inp.
 func probeModule(kind string, n int, op string, rhsU, resBool bool, fn string) *wmodule {
-	kt := map[string]*wty{"i32": tI32, "u32": tU32}[kind]
+	kt := map[string]*wty{"i32": tI32, "u32": tU32, "f32": tF32}[kind]
 	ty := func(s *wty) *wty {
 		if n == 1 {
 			return s
@@ -357,6 +386,12 @@ func probeModule(kind string, n int, op string, rhsU, resBool bool, fn string) *
 	var r *wexpr
 	rt := ty(kt)
 	switch {
+	case fn == "f2i":
+		rt = ty(tI32)
+		r = &wexpr{k: "cast", ty: rt, args: []*wexpr{a}}
+	case fn == "f2u":
+		rt = ty(tU32)
+		r = &wexpr{k: "cast", ty: rt, args: []*wexpr{a}}
 	case fn == "neg":
 		r = &wexpr{k: "un", ty: rt, op: "-", args: []*wexpr{a}}
 	case fn == "bnot":
@@ -428,7 +463,7 @@ func (c *ctx) probeCases(dialect string, m *wmodule, label string, bnd []uint32,
 		for i := 0; i < 10; i++ {
 			inp := make([]uint32, 16)
 			for j := range inp {
-				if c.chance(0.8) {
+				if c.chance(0.8) || strings.HasPrefix(op, "f2") {
 					inp[j] = bnd[c.rng.Intn(len(bnd))]
 				} else {
 					inp[j] = c.rng.Uint32()
